@@ -277,6 +277,9 @@ oldbuf:
 err1:
 	free(WB);
 err0:
+	/* We have not reserved any space. */
+	W->reserved = 0;
+
 	/* Failure! */
 	return (NULL);
 }
